@@ -282,3 +282,27 @@ func (g *GHashStream) BlocksParallel(b []byte, workers int) {
 		g.y = mul(g.y, pow(g.h, p.n)).xor(p.p)
 	}
 }
+
+// State returns the current GHASH accumulator.
+func (g *GHashStream) State() []byte { return g.y.bytes() }
+
+// LenBlock is [len(A)]_64 || [len(C)]_64 in bits.
+func LenBlock(aadLen, ctLen int) []byte { return lenBlock(aadLen, ctLen) }
+
+// SolveFirstBlock returns the value of the FIRST ciphertext block for which the GHASH accumulator, after absorbing aad and the whole
+// ciphertext ct (whose first 16 bytes are ignored), equals target: the accumulator is affine in that block,
+// Y = C1*H^m xor Y(C1=0), m = number of ciphertext blocks. len(ct) >= 16.
+func SolveFirstBlock(h, aad, ct, target []byte) []byte {
+	c := append([]byte(nil), ct...)
+	for i := 0; i < 16; i++ {
+		c[i] = 0
+	}
+	g := NewGHashStream(h)
+	g.Blocks(aad)
+	g.Blocks(c)
+	rest := g.y
+	m := uint64((len(ct) + 15) / 16)
+	hm := pow(load(h), m)
+	inv := load(Inv(hm.bytes()))
+	return mul(rest.xor(load(target)), inv).bytes()
+}
